@@ -155,18 +155,31 @@ def inject(tu_rel, injections, scratch):
             at = inj.get('at', 'entry')
             if at == 'entry':
                 inserts.append((bo + 1, MARK_O + '\n' + inj['text'] + '\n' + MARK_C))
-            elif at == 'before':
+            elif at in ('before', 'wrap'):
                 want = cscan.norm(inj['match'])
-                body = src[bo:bc]
-                # find statement text by normalised search over lines
                 hits = []
                 for lm in re.finditer(r'[^\n]*\n', src[bo:bc]):
                     if cscan.norm(lm.group(0)) == want:
-                        hits.append(bo + lm.start())
+                        hits.append((bo + lm.start(), bo + lm.end()))
                 nth = int(inj.get('nth', 1))
                 if len(hits) < nth:
                     raise Undecided('extraction break: line %r not found in %s' % (inj['match'], inj['function']))
-                inserts.append((hits[nth - 1], MARK_O + '\n' + inj['text'] + '\n' + MARK_C + '\n'))
+                ls, le = hits[nth - 1]
+                # the insertion point must be a statement boundary inside a block, otherwise the
+                # injected ghost statement would change the control flow of the real code
+                k = ls - 1
+                while k > bo and m[k].isspace():
+                    k -= 1
+                if at == 'before':
+                    if m[k] not in ';{}':
+                        raise Undecided('injection before %r in %s is not at a statement boundary (use at=wrap)' % (inj['match'], inj['function']))
+                    inserts.append((ls, MARK_O + '\n' + inj['text'] + '\n' + MARK_C + '\n'))
+                else:
+                    stmt = m[ls:le].strip()
+                    if not stmt.endswith(';') or stmt.count(';') != 1 or '{' in stmt or '}' in stmt:
+                        raise Undecided('at=wrap needs a single simple statement line, got %r' % src[ls:le])
+                    inserts.append((ls, MARK_O + '\n{ ' + inj['text'] + '\n' + MARK_C + '\n'))
+                    inserts.append((le, MARK_O + '\n}\n' + MARK_C + '\n'))
             else:
                 raise Undecided('bad inject at=%s' % at)
             fired.append({'kind': 'inject', 'file': tu_rel, 'function': inj['function'], 'at': at, 'text': inj['text']})
@@ -290,8 +303,6 @@ def run_harness(h, keep=False, extra_defines=()):
         unfired = [i for i in h.injections if i.get('file') not in h.tus]
         if unfired:
             raise Undecided('injection for a file not in tus: %s' % unfired)
-        hc = os.path.join(scratch, os.path.basename(h.path))
-        shutil.copy(h.path, hc)
         for i, extra in enumerate([h.path] + [os.path.join(VERIF, e) for e in h.extra_src]):
             gb = os.path.join(scratch, 'hx%d.gb' % i)
             rc, out, err, dt = run(['goto-cc'] + inc + ['-c', extra, '-o', gb], cwd=scratch, timeout=300)
@@ -355,6 +366,7 @@ def run_harness(h, keep=False, extra_defines=()):
             line = int(sl.get('line', 0) or 0)
             oline, ofile, text = line, f, ''
             in_real = base in linemaps and not f.startswith('<')
+            in_spec = False
             if in_real:
                 tu, lm = linemaps[base]
                 ofile = tu
@@ -364,12 +376,14 @@ def run_harness(h, keep=False, extra_defines=()):
                     srcs[tu] = src_lines(os.path.join(REPO, tu))
                 if 0 < oline <= len(srcs[tu]):
                     text = srcs[tu][oline - 1].strip()
-            elif base == os.path.basename(h.path):
-                ofile = os.path.relpath(h.path, VERIF)
-                if h.path not in srcs:
-                    srcs[h.path] = src_lines(h.path)
-                if 0 < line <= len(srcs[h.path]):
-                    text = srcs[h.path][line - 1].strip()
+            elif not f.startswith('<') and os.path.abspath(os.path.join(scratch, f)).startswith(VERIF + os.sep):
+                in_spec = True
+                af = os.path.abspath(os.path.join(scratch, f))
+                ofile = os.path.relpath(af, VERIF)
+                if af not in srcs:
+                    srcs[af] = src_lines(af)
+                if 0 < line <= len(srcs[af]):
+                    text = srcs[af][line - 1].strip()
             desc = r_.get('description', '')
             # classification
             if desc.startswith('harness-sanity'):
@@ -382,7 +396,7 @@ def run_harness(h, keep=False, extra_defines=()):
                 fnp = fn.replace('__CPROVER_file_local_', '')
                 under = any(fnp == x or fnp.endswith('_' + x) for x in real_fns) or '*' in real_fns
                 kind = 'obligation' if under else 'callee-safety'
-            elif base == os.path.basename(h.path) or any(base == os.path.basename(e) for e in h.extra_src):
+            elif in_spec:
                 if cls in ('postcondition', 'precondition', 'assertion', 'loop_invariant_base', 'loop_invariant_step',
                            'loop_decreases', 'loop_step_unwinding', 'loop_assigns', 'precondition_instance'):
                     kind = 'obligation'
